@@ -94,13 +94,28 @@ func thoroughExtras(c *Ctx, pr *Property, repo, verif string) (map[string]any, [
 	}
 	wg.Wait()
 	outcomes = append(outcomes, seedOut...)
+	// the stored behaviour-preserving refactorings: every rule of the property must stay silent on each
+	refs, _ := filepath.Glob(filepath.Join(verif, "refactors", "*.diff"))
+	sort.Strings(refs)
+	refOut := make([]variantOutcome, len(refs))
+	for i, rf := range refs {
+		wg.Add(1)
+		go func(i int, rf string) {
+			defer wg.Done()
+			sem <- struct{}{}
+			defer func() { <-sem }()
+			refOut[i] = runRefactor(pr, rf, repo)
+		}(i, rf)
+	}
+	wg.Wait()
+	outcomes = append(outcomes, refOut...)
 	tally := map[string]int{}
 	for _, o := range outcomes {
 		tally[o.Outcome]++
 	}
 	extra["selftest"] = map[string]any{
 		"note":     "variants of /repo's current source applied in memory (packages.Config.Overlay); 'killed' = a seeded break was reported, 'silent-ok' = a behaviour-preserving rewrite was not; 'missed' and 'false-alarm' are defects of the checker and do not change the verdict on /repo",
-		"variants": len(mine), "seeded_changes": len(seeds), "tally": tally, "outcomes": outcomes,
+		"variants": len(mine), "seeded_changes": len(seeds), "refactorings": len(refs), "tally": tally, "outcomes": outcomes,
 	}
 	var bad []string
 	for _, o := range outcomes {
@@ -112,7 +127,7 @@ func thoroughExtras(c *Ctx, pr *Property, repo, verif string) (map[string]any, [
 	if len(bad) > 0 {
 		fmt.Fprintf(os.Stderr, "selftest %s: %v\n", pr.ID, bad)
 	}
-	fmt.Printf("%s selftest: %d variants + %d seeded changes %v\n", pr.ID, len(mine), len(seeds), tally)
+	fmt.Printf("%s selftest: %d variants + %d seeded changes + %d refactorings %v\n", pr.ID, len(mine), len(seeds), len(refs), tally)
 	return extra, more
 }
 
@@ -144,6 +159,34 @@ func runSeed(pr *Property, sm seedMeta, repo, verif string) variantOutcome {
 		out.Outcome = "killed"
 	} else {
 		out.Outcome = "missed"
+	}
+	return out
+}
+
+func runRefactor(pr *Property, diff, repo string) variantOutcome {
+	out := variantOutcome{ID: "refactor:" + strings.TrimSuffix(filepath.Base(diff), ".diff"), Expect: "silent"}
+	ov, err := diffOverlay(repo, diff)
+	if err != nil {
+		out.Outcome, out.Detail = "skipped", err.Error()
+		return out
+	}
+	p2, err := Load(LoadOpts{Dir: repo, Overlay: ov})
+	if err != nil {
+		out.Outcome, out.Detail = "discarded", "does not type-check on the current tree: "+err.Error()
+		return out
+	}
+	c2 := &Ctx{P: p2, Tier: "thorough", memo: map[string]any{}}
+	for _, id := range pr.Rules {
+		for _, in := range runRule(c2, id).Instances {
+			if in.Verdict != Hold && !inList(out.Rules, id) {
+				out.Rules = append(out.Rules, id)
+			}
+		}
+	}
+	if len(out.Rules) == 0 {
+		out.Outcome = "silent-ok"
+	} else {
+		out.Outcome = "false-alarm"
 	}
 	return out
 }
